@@ -53,6 +53,11 @@ func runC20(c *core.Ctx) {
 		withOption = true
 		holdBack = 0
 	}
+	// the nomination value travels under the default attribute type or under one configured on both agents
+	nomAttr := []uint16{0xC001, 0xC001, 0xC001, 0xC0FE, 0x8033}[t.Choose(5, "nomination-attribute")]
+	c.Knob("nominationAttribute", fmt.Sprintf("%#04x", nomAttr))
+	rig.NominationAttr = stun.AttrType(nomAttr)
+	c.Defer(func() { rig.NominationAttr = stun.AttrType(0xC001) })
 	c.Knob("withOption", withOption)
 	c.Knob("holdBack", holdBack)
 	c.Knob("faulty", faulty)
@@ -93,6 +98,9 @@ func runC20(c *core.Ctx) {
 		}
 		if renom {
 			o = append(o, ice.WithRenomination(gen))
+		}
+		if nomAttr != 0xC001 {
+			o = append(o, ice.WithNominationAttribute(nomAttr))
 		}
 		if bothLite {
 			o = append(o, ice.WithICELite(true), ice.WithCandidateTypes([]ice.CandidateType{ice.CandidateTypeHost}))
